@@ -24,7 +24,8 @@ import (
 
 var base = time.Unix(1700000000, 0)
 
-const tol = 5 * time.Second
+// signTolerance of the view under test (VERIF_VIEW_TOL seconds, default 5)
+var tol = 5 * time.Second
 
 type listener struct{ calls int }
 
@@ -274,6 +275,11 @@ func record(runs, polls int, out string) {
 
 func main() {
 	defer rep.Flush()
+	if v := os.Getenv("VERIF_VIEW_TOL"); v != "" {
+		if n, err := strconv.Atoi(v); err == nil && n > 0 {
+			tol = time.Duration(n) * time.Second
+		}
+	}
 	// dpos/log has no default logger; level 255 keeps it silent
 	logDir, err := os.MkdirTemp("", "verif-c26-log-")
 	if err != nil {
